@@ -319,7 +319,7 @@ func Load(ctx context.Context, wd string, env []string, tags string, patterns []
 					ec.add(notePositionAll(fset.Position(fn.Pos()), errs)...)
 					continue
 				}
-				_, errs = solve(fset, out.out, ins, set)
+				calls, errs := solve(fset, out.out, ins, set)
 				if len(errs) > 0 {
 					ec.add(mapErrors(errs, func(e error) error {
 						if w, ok := e.(*wireErr); ok {
@@ -327,6 +327,10 @@ func Load(ctx context.Context, wd string, env []string, tags string, patterns []
 						}
 						return notePosition(fset.Position(fn.Pos()), fmt.Errorf("inject %s: %v", fn.Name.Name, e))
 					})...)
+					continue
+				}
+				if errs := injectorCallErrors(fset, fn.Pos(), fn.Name.Name, calls, out, pkg.PkgPath); len(errs) > 0 {
+					ec.add(errs...)
 					continue
 				}
 				info.Injectors = append(info.Injectors, &Injector{
